@@ -653,6 +653,36 @@ def d3b_roundtrip_detection(chk, prog):
     tb.done("a file written by the package is not recognised as its own format by auto-detection (read_auto would parse it with another reader)")
 
 
+def d3c_foreign_files(chk, prog):
+    """auto-detection on literal files of each supported format as other tools write them (with their header / comment / track lines): the format named is that format's"""
+    fi_s = prog.fn("skgenome.tabio.sniff_region_format")
+    tb = Table(chk, "sniff-own-output", "sniff_region_format on literal files of every claimed format (VCF with / without meta lines, GFF, interval list with @ header, text, tab, BED with track / browser / comment / blank lines)", fi_s.loc(),
+               fi_s.qn + "::foreign files")
+    files = [("vcf", "a VCF with meta lines", ["##fileformat=VCFv4.2\n", "##contig=<ID=chr1>\n", "#CHROM\tPOS\tID\tREF\tALT\tQUAL\tFILTER\tINFO\n", "chr1\t101\t.\tA\tC\t.\tPASS\t.\n"]),
+             ("vcf", "a VCF that starts at the column header", ["#CHROM\tPOS\tID\tREF\tALT\tQUAL\tFILTER\tINFO\n", "chr1\t101\t.\tA\tC\t.\tPASS\t.\n"]),
+             ("vcf", "a VCF after a blank line", ["\n", "##fileformat=VCFv4.1\n", "#CHROM\tPOS\tID\tREF\tALT\tQUAL\tFILTER\tINFO\n"]),
+             ("gff", "a GFF3 with its version pragma", ["##gff-version 3\n", "chr1\tsrc\texon\t101\t200\t.\t+\t.\tID=x\n"]),
+             ("gff", "a GFF without pragma, after a comment", ["# made by a tool\n", "chr1\tsrc\texon\t101\t200\t.\t+\t.\tgene_id \"G\";\n"]),
+             ("interval", "a Picard interval list with header", ["@HD\tVN:1.4\n", "@SQ\tSN:chr1\tLN:1000\n", "chr1\t101\t200\t+\tG\n"]),
+             ("interval", "interval-list data lines only", ["chr1\t101\t200\t+\tG\n"]),
+             ("text", "chr:start-end text", ["chr1:101-200\tG\n"]),
+             ("tab", "a CNVkit table", ["chromosome\tstart\tend\tgene\tlog2\n", "chr1\t100\t200\tG\t0.5\n"]),
+             ("bed", "a BED with track and browser lines", ["browser position chr1:1-1000\n", "track name=baits\n", "chr1\t100\t200\tG\n"]),
+             ("bed", "a BED after comment and blank lines", ["# baits v2\n", "\n", "chr1\t100\t200\n"]),
+             ("bed", "a six-column BED", ["chr1\t100\t200\tG\t0\t-\n"])]
+    for want, label, lines in files:
+        W.reset()
+        model = Model()
+        model.ext["Bio.File.as_handle"] = lambda it_, infile, *a, lines=lines, **k: list(lines)
+        model.prims["skgenome.tabio.get_filename"] = lambda it_, f: None
+        it = Interp(prog, model)
+        got = tb.guard(lambda: ("fmt", it.run(fi_s.qn, ["<stream>"])), label)
+        if got is None:
+            continue
+        tb.cell(got[1] == want, dict(file=label, first_lines=[ln.rstrip("\n") for ln in lines[:3]], detected=got[1], want=want))
+    tb.done("a file of a supported format is not recognised as that format by auto-detection (read_auto raises or parses it with another reader)")
+
+
 def d4_precision(chk, prog):
     chk.clause("D4", "floats are written with >= 6 significant digits")
     chk.rule("float-format", "every DataFrame.to_csv in tabio.write / cmdutil.write_dataframe passes float_format='%.Ng' with N >= 6")
@@ -688,7 +718,11 @@ def run(chk):
     d2_order(chk, prog)
     d3_sniff(chk, prog)
     d3b_roundtrip_detection(chk, prog)
+    d3c_foreign_files(chk, prog)
     d4_precision(chk, prog)
+    chk.clause("CLI", "the `import-seg` command line (second half of the export seg / import-seg round trip): chromosome mapping only when asked for, prefix, log10 switch, one file per sample")
+    from .. import cliglue
+    cliglue.check_import_seg(chk, prog)
 
 
 _T = "skgenome/tabio/"
